@@ -54,9 +54,10 @@ def trace_cfg(dev):
     return f"SPECIFICATION TraceSpec\nCONSTANTS Dev = {to_tla(set(dev))}\nCONSTRAINT TraceAccept\n"
 
 
-def validate_with_findings(ctx, spec, traces, finding_dev, describe, where):
+def validate_with_findings(ctx, spec, traces, finding_dev, describe, where, cfg=None):
     """Strict validation; rejected traces are retried with each open finding's deviation (then all)."""
     v, ev = ctx.v, ctx.ev
+    trace_cfg = cfg or globals()["trace_cfg"]
     br = validate(spec, trace_cfg(set()), traces, scratch=ctx.scratch, parallel=14, min_chunk=150)
     ev.tlc_counts(f"{spec}: strict validation of {len(traces)} traces", br.distinct, br.states, br.wall_s)
     rejected = [(t, tv) for t, tv in zip(traces, br.verdicts) if not tv.accepted]
